@@ -1098,6 +1098,17 @@ impl Transformer {
                 if let OutputEvent::Start(el) | OutputEvent::Empty(el) = &first_svg {
                     root_element = Some(el.clone());
                 }
+                // Character data can't precede the root element of a document. (It is
+                // also what the reader makes of the rest of a DOCTYPE holding a '>' in
+                // a quoted literal.)
+                if let Some(text) = pre_svg.iter().find_map(|ev| match ev {
+                    OutputEvent::Text(t) if !t.trim().is_empty() => Some(t.trim()),
+                    _ => None,
+                }) {
+                    return Err(SvgdxError::DocumentError(format!(
+                        "text before the root element: '{text}'"
+                    )));
+                }
                 pre_svg.write_to(writer)?;
                 self.write_root_svg(first_svg, bbox, writer)?;
                 events = remain;
